@@ -99,12 +99,17 @@ struct H {
         auto& hv = holders[key];
         for (size_t i = 0; i < hv.size(); i++) if (hv[i].actor == id) { hv.erase(hv.begin() + i); break; }
         bool others = !hv.empty();
+        // The idle period of an object starts inside the release that drops the last reference, i.e. not before the
+        // start of any release call on that key: the start time of the latest one is a sound lower bound (the time
+        // after the call returns is not - another vCPU or a clock jump can sit in between).
+        { uint64_t nw = photon::now; if (nw > last_release[key]) last_release[key] = nw; }
         if (recycle) recycling[key]++;
         Obj* back = cache->release(key, recycle, destroy);
         if (recycle) {
             recycling[key]--;
             // a recycling release returns only after every other holder has released
-            if (!holders[key].empty() && back) ctl.violation("recycling release of key " + std::to_string(key) + " handed the object over while another actor still holds it");
+            // (by now another actor may already hold a NEW object of this key: the item left the index before the call returned)
+            if (back) for (auto& h2 : holders[key]) if (h2.ptr == back) ctl.violation("recycling release of key " + std::to_string(key) + " handed the object over while actor" + std::to_string(h2.actor) + " still holds it");
             if (others) { nt = true; labels.insert("recycle_waited_for_other_holder"); }
             if (back) {
                 if (destroy) ctl.violation("release(recycle, destroy=true) returned an object");
@@ -114,7 +119,6 @@ struct H {
                 recycling[key]++; delete back; recycling[key]--;      // ownership moved to the caller
             }
         } else if (back) ctl.violation("plain release returned an object");
-        last_release[key] = photon::now;
     }
 };
 
